@@ -109,6 +109,7 @@ type simTask struct {
 	stateAtInvoke State
 	termAtInvoke  uint64
 	acceptedIndex uint64 // log index assigned if accepted (0: none)
+	checked       bool
 }
 
 var (
